@@ -50,7 +50,17 @@ CLAIMED = {
              "a lagged subscription takes nothing further and ends.",
              design="5/C11", technique="Lean 4 invariant proof over a labelled transition system; correspondence incl. slow-consumer lag (>1024 behind, during and after replay)",
              note="B"),
+
+ "C12": dict(text="Theorems: TTL print→parse identity and parse soundness (head:0, signs, overflow, junk never become values); u64/u32 and 25-char base-36 id text round trips; "
+             "ReadOptions survive to_query_string→from_query through a modelled form-urlencoding (all follow modes, ms heartbeats, tail, last-id, limit, context) with the rejection and "
+             "acceptance oddities stated; Frame ↔ JSON value tree round trip incl. the nesting limit; after every history every stored frame is decodable (insert_frame refuses the rest).",
+             design="5/C12", technique="Lean 4 proofs over executable models of the parsers/printers; differential execution of the real parse_ttl / from_query / to_query_string / serde Frame on generated and mutated inputs",
+             note="W"),
 }
+
+WIRE_NOTE = ("Trusted: Lean 4.33 kernel (axioms propext, Classical.choice, Quot.sound only); hand models XsModel/{Ttl,Query,Json}.lean of parse_ttl, uN::from_str, Display, "
+             "Scru128Id text, form_urlencoded parse/serialize (plain subset proved, full decoder executed), serde field presence rules, serde_json's 128 recursion limit; the JSON text layer, "
+             "ssri hash validity and base64 are the libraries' (exercised, not modelled). Tie: every generated input is run through the real code and the model; accepted values, rejections and printed text must agree.")
 
 FOLLOW_NOTE = ("Trusted: Lean 4.33 kernel (axioms propext, Classical.choice, Quot.sound only); the hand-written LTS XsModel/Follow.lean (one reader, any number of writers through the append lock; "
                "TTL expiry/removal during a follow not modelled); the correspondence: the global order in which threads reach the verif sync points is replayed as LTS actions (each must be enabled and handle "
@@ -67,7 +77,7 @@ def check_entry(pid):
         "replay_cmd_template": f"./check {pid} --replay {{path}}",
         "engine": "lean+xsw",
         "level_claimed": {"category": "proof", "text": c["text"], "design_ref": "DESIGN.md section " + c["design"]},
-        "level_note": FOLLOW_NOTE if c.get("note") == "B" else c.get("note", STORE_NOTE),
+        "level_note": FOLLOW_NOTE if c.get("note") == "B" else WIRE_NOTE if c.get("note") == "W" else c.get("note", STORE_NOTE),
         "technique": c["technique"],
     }
 
